@@ -343,6 +343,14 @@ func c20Cases(quick bool) []c20Case {
 					_ = c.FindOneAndUpdate(w.Ctx, bD(), u, options.FindOneAndUpdate().SetSort(bD("a", int32(1))).SetUpsert(true)).Err()
 					_, _ = c.UpdateMany(w.Ctx, bD("a", bD("$exists", true)), u, options.Update().SetArrayFilters(options.ArrayFilters{Filters: []interface{}{bD("x", wv)}}))
 					_, _ = c.BulkWrite(w.Ctx, []mongo.WriteModel{mongo.NewUpdateManyModel().SetFilter(bD()).SetUpdate(u), mongo.NewInsertOneModel().SetDocument(bD("_id", wv)), mongo.NewDeleteOneModel().SetFilter(bD("_id", wv))}, options.BulkWrite().SetOrdered(false))
+					// ordered batches in which the item that may fail comes first, in the middle and last
+					for pos := 0; pos < 3; pos++ {
+						ms := []mongo.WriteModel{mongo.NewInsertOneModel().SetDocument(bD("bulk", int32(pos))), mongo.NewDeleteOneModel().SetFilter(bD("bulk", int32(pos)))}
+						odd := mongo.NewUpdateOneModel().SetFilter(bD()).SetUpdate(u)
+						ms = append(ms[:pos], append([]mongo.WriteModel{odd}, ms[pos:]...)...)
+						_, _ = c.BulkWrite(w.Ctx, ms, options.BulkWrite().SetOrdered(true))
+						_, _ = c.BulkWrite(w.Ctx, ms)
+					}
 				}
 				if d, ok := wv.(bson.D); ok {
 					_, _ = c.ReplaceOne(w.Ctx, bD(), d)
